@@ -3865,6 +3865,14 @@ class FuncSorted(ValueFunc):
             if args.hasArg("key")
             else environment.get("identity", pos)
         )
+        # the defaults are whatever the program has bound to these names
+        for name, default in (("compare", cmp), ("identity", key)):
+            if not default.isFunc():
+                raise CklRuntimeError(
+                    ValueString("ERROR"),
+                    f"Function required but {name} is " + default.type(),
+                    pos,
+                )
         result = lst.value[:]
         for i in range(len(result)):
             v = call_function(key, [result[i]], env, pos)
